@@ -227,7 +227,7 @@ def check_property(pid, tier, scratch, write_baseline=False):
         variants = P.get("checks_variants", {}).get(u, [False, True])
         for cv in variants:
             runs.append(UnitRun(u, scratch, checks=cv, rlimit=rl))
-            runs.append(UnitRun(u, scratch, checks=cv, probe="exit", rlimit=rl))
+            runs.append(UnitRun(u, scratch, checks=cv, probe="exit", rlimit=3))   # a reachable `assert(false)` needs no search budget
     undecided = []
     with cf.ThreadPoolExecutor(max_workers=8) as ex:
         futs = {ex.submit(r.go): r for r in runs}
@@ -245,6 +245,7 @@ def check_property(pid, tier, scratch, write_baseline=False):
     kf = known_findings()
     violations = []       # dict(obligation, fn, unit, variant, text, tags)
     undecidable_fns = {}  # (unit, qual) -> (reason, fn meta)
+    heavy = []            # queries that use a large share of the solver budget (fragility watch-list)
     bounded_runs = []
     known_hits = []
     obligations = 0
@@ -292,6 +293,8 @@ def check_property(pid, tier, scratch, write_baseline=False):
                     scan_hits.append((r.label, i, line.strip()[:160]))
             for name, (ok, ms, rlim, mode) in sorted(r.fn.items()):
                 solver_ms += ms
+                if rlim > 8000000:
+                    heavy.append(dict(unit=r.unit, function=name, rlimit_units=rlim, ms=round(ms)))
             for f in r.em.functions:
                 if f.get("undecidable"):
                     undecidable_fns.setdefault((r.unit, f["qual"]), (f["undecidable"], f))
@@ -353,6 +356,11 @@ def check_property(pid, tier, scratch, write_baseline=False):
         if any(pid in t.split(":")[0].split(",") for t in f["tags"]):
             need.setdefault(u, set()).add(q)
     bfail = {}
+    # functions that are anchored in the property but outside Verus's reach: a bounded check of each stands in on
+    # every run (labelled bounded, never counted as proved)
+    always = {u: set(fns) for u, fns in P.get("bounded_always", {}).items()}
+    for u, fns in always.items():
+        need.setdefault(u, set()).update(fns)
     if not write_baseline:
         for u, fns in sorted(need.items()):
             if not bounded.available(u):
@@ -367,7 +375,19 @@ def check_property(pid, tier, scratch, write_baseline=False):
             else:
                 for q in fns:
                     bfail.setdefault((u, q), None)
+    for u, fns in sorted(always.items()):
+        for q in sorted(fns):
+            fl = bfail.get((u, q))
+            if fl:
+                ob = fl[0]["clause"] if pid in fl[0]["clause"].split(":")[0].split(",") else "%s:%s" % (pid, q)
+                violations.append(dict(obligation=ob + "~bounded", fn=q, unit=u, variant="native", text="bounded stand-in for %s (outside the contracts): failing input on the real code: %s [%s]" % (q, fl[0]["input"], fl[0]["clause"]),
+                                       kind="bounded stand-in: failing input", file="(see contracts/bounded/%s.rs)" % u, path=q, body="", diff="",
+                                       failing_input=dict(found=True, engine="bounded native harness on the real code (contracts/bounded/%s.rs)" % u, input=fl[0]["input"], clause=fl[0]["clause"], more=[x["input"] for x in fl[1:3]])))
+            elif (u, q) in bfail and fl is None:
+                undecided.append("%s: bounded stand-in for %s did not run" % (u, q))
     for v in violations:
+        if v.get("failing_input"):
+            continue
         fl = bfail.get((v["unit"], v["fn"]))
         v["failing_input"] = dict(found=True, engine="bounded native harness on the real code (contracts/bounded/%s.rs)" % v["unit"], input=fl[0]["input"], clause=fl[0]["clause"], more=[x["input"] for x in fl[1:3]]) if fl else dict(found=False, note="verus gives no counterexample; bounded native search found none" if bounded.available(v["unit"]) else "verus gives no counterexample; no bounded harness for this unit")
     for (u, q), (reason, f) in sorted(undecidable_fns.items()):
@@ -443,7 +463,9 @@ def check_property(pid, tier, scratch, write_baseline=False):
             units=units,
             undecided=undecided,
             known_findings_reported=[h["_line"] for h, _ in known_hits],
+            heavy_queries=heavy,
             bounded_checks=bounded_runs,
+            bounded_standins=P.get("bounded_always", {}),
         ),
         assumptions=P.get("assumptions", []),
         wall_s=round(wall, 2),
